@@ -29,6 +29,11 @@ theorem unescape_escape (s : Str) : unescape (escape s) = s := by
       rw [unescape.eq_def]
       split <;> simp_all
 
+/-- the carriage return is one of the characters `escape` rewrites: it is written as `&#13;` (written raw, an HTML parser would read it back
+    as a line feed), and read back as itself -/
+theorem carriage_return_is_written_as_reference :
+    escape ['a', '\r', 'b'] = "a&#13;b".toList ∧ unescape "a&#13;b".toList = ['a', '\r', 'b'] := by decide
+
 /-- `v-html`: the evaluated content is written verbatim between the element's tags -/
 theorem vhtml_verbatim (parent tag : Str) (indent : Nat) (attrs : List Attr) (kids : List Node) (c : Str)
     (hc : contentAttrs attrs = (c, [])) (hne : c ≠ []) (ht : tag ≠ sTemplate) :
